@@ -42,3 +42,12 @@ Theorem C05_rounds_are_regenerated : forall E st, sU st = [] ->
   epal_step E st = vg_round (ep_dom E) (ep_cov E) (pess E) st.
 Proof. intros E st HU. split; [apply (vogp_round_refines E st HU) | apply (epal_round_refines E st HU)]. Qed.
 Print Assumptions C05_rounds_are_regenerated.
+
+(* VOGP and eps-PAL runs start from Spec.init_state K: the state their regenerated constructors set up *)
+From VOPy Require Spec StepMachine.
+From VOPyGen Require Gen_extra2.
+Theorem C05_runs_start_from_the_constructed_state : forall K b L,
+  StepMachine.a_st (Gen_extra2.gen_init_vogp K b L) = Spec.init_state K /\
+  StepMachine.a_st (Gen_extra2.gen_init_epsilonpal K b L) = Spec.init_state K.
+Proof. intros. split; reflexivity. Qed.
+Print Assumptions C05_runs_start_from_the_constructed_state.
